@@ -6,7 +6,10 @@ pub mod c03;
 pub mod c04;
 pub mod c05;
 pub mod c06;
+pub mod c07;
+pub mod c08;
 pub mod c09;
+pub mod c13;
 
 pub fn dispatch(ctx: &mut Ctx) -> bool {
     match ctx.prop.clone().as_str() {
@@ -16,7 +19,10 @@ pub fn dispatch(ctx: &mut Ctx) -> bool {
         "C04" => c04::run(ctx),
         "C05" => c05::run(ctx),
         "C06" => c06::run(ctx),
+        "C07" => c07::run(ctx),
+        "C08" => c08::run(ctx),
         "C09" => c09::run(ctx),
+        "C13" => c13::run(ctx),
         _ => return false,
     }
     true
